@@ -113,6 +113,34 @@ def props_obligations(files):
     return res
 
 
+def coqchk_props(files):
+    """Thorough tier: re-check the compiled property files (and everything they depend on) with
+    the independent checker coqchk, and read its context summary. One run per build: the result
+    is cached under out/coqchk keyed by the compiled files' sizes and times."""
+    import hashlib
+    vos = sorted(glob.glob(os.path.join(COQ, "theories", "**", "*.vo"), recursive=True))
+    h = hashlib.sha256()
+    for f in vos:
+        st = os.stat(f)
+        h.update(("%s %d %d\n" % (os.path.relpath(f, COQ), st.st_size, int(st.st_mtime))).encode())
+    mods = sorted("MB.Props." + os.path.basename(f)[:-2] for f in glob.glob(os.path.join(COQ, "theories", "Props", "*.v")))
+    key = h.hexdigest()[:24]
+    cdir = os.path.join(OUT, "coqchk")
+    os.makedirs(cdir, exist_ok=True)
+    cf = os.path.join(cdir, key + ".json")
+    with Lock("coqchk"):
+        if os.path.exists(cf):
+            return json.load(open(cf))
+        t0 = time.time()
+        rc, out = sh(["coqchk", "-silent", "-o", "-Q", "theories", "MB"] + mods, cwd=COQ, timeout=7200)
+        fields = dict(re.findall(r"\* (Axioms|Constants/Inductives relying on type-in-type|Constants/Inductives relying on unsafe \(co\)fixpoints|"
+                                 r"Inductives whose positivity is assumed):\s*(.*?)\n\s*\n", out + "\n\n", re.S))
+        res = dict(rc=rc, modules=len(mods), wall_s=round(time.time() - t0), summary={k: " ".join(v.split()) for k, v in fields.items()},
+                   ok=(rc == 0 and len(fields) == 4 and all(" ".join(v.split()) == "<none>" for v in fields.values())), log=out[-2000:])
+        json.dump(res, open(cf, "w"), indent=1)
+        return res
+
+
 def coq_eval(files, timeout=1500):
     """Evaluate cases files in parallel; returns {file: output}."""
     procs = []
@@ -228,6 +256,8 @@ def finish(pid, tier, seed, t0, proof, parts, level_text, trusted, assumptions, 
         parts={p.name: dict(evaluations=p.evaluations, distinct_nontrivial=p.nontrivial, info=p.info,
                             violations=len(p.violations)) for p in parts},
     )
+    if proof and proof.get("coqchk"):
+        cov["independent_recheck_coqchk"] = proof["coqchk"]
     if extra:
         cov.update(extra)
     ev = dict(property_id=pid, tier=tier, seed=int(seed), level="proof", coverage=cov, assumptions=assumptions,
@@ -307,6 +337,12 @@ def main(argv):
     if bad:
         proof["ok"] = False
         proof["log"] += "\nforbidden constructs: %s" % bad
+    if tier == "thorough" and coq_ok:
+        ck = coqchk_props(spec["props"])
+        proof["coqchk"] = dict(ok=ck["ok"], summary=ck["summary"], modules=ck["modules"], wall_s=ck["wall_s"])
+        if not ck["ok"]:
+            proof["ok"] = False
+            proof["log"] += "\ncoqchk: %s\n%s" % (ck["summary"], ck["log"])
     parts = [proof_part(proof, pid)]
     work = scratch()
     try:
